@@ -18,6 +18,22 @@ a task `t` (`s_nextSched t`, `d_wait t false`, `d_mark t _`, `r_getById t`, `las
 `ret = DispatchErr t e` with `e` not a repository verdict) that is still scheduled and is the cached
 head whenever the cache is trusted (so marking it re-arms), or `getNextErr` is set (with a state that
 `Retry` does not hand back to `dispatchTask`), or the timer is being restarted.
+
+WORLDCORE (the action `SAct.markDispatchedCore`: `MarkAsDispatched` takes effect in the core repository below
+the wrapper and is reported as failed, the wrapper's timer hook is NOT called — D21's trigger). After such a
+step the hook's cache / the armed deadline no longer answer to the repository, so neither alternative above
+holds. `LiveInv.hook` has a third alternative
+
+    Obs.Loose w.obs ∧ Restart w
+
+`Obs.Loose`: what survives a write the hook was not told about and is preserved by every later hook call run
+against the stale cache — the repository part of `Inv`, the clock discipline, "stopped is silent", and "an armed
+deadline is not later than any scheduled task (nor than the trusted cached task)"; the timer may be SILENT
+while a task is scheduled. `Restart w`: `getNextErr` is set and `pc` is one of `idle, s_stop, r_stop,
+r_getById, d_wait, d_mark, d_get` — the control states from which the next thing that happens to the timer is
+`StopTimer(); StartTimer()` (which turns `Loose` back into `Inv`); every `DispatchErr` exit sets the request.
+`Owes w` (the predicate of `C05_never_late_or_owed`) is now `OwesHeld w ∨ Restart w`, `OwesHeld` being the
+former `Owes`. All registered statements of this file are unchanged and hold for scripts with the new action.
 -/
 import Gk.World
 import Gk.Proofs.WorldLive
@@ -71,7 +87,7 @@ theorem C05_no_idle_timer (w : World) :
     World.WakeUp w := by
   intro h hpc ⟨t, ht, hs, _⟩
   unfold World.WakeUp
-  rcases h.hook with hI | ⟨_, _, ho⟩
+  rcases h.hook with hI | ⟨_, _, ho⟩ | ⟨_, hR⟩
   · cases hst : w.obs.hook.started with
     | false => simp
     | true =>
@@ -87,11 +103,13 @@ theorem C05_no_idle_timer (w : World) :
         · cases har : w.obs.clock.armed with
           | none => simp [har] at ha
           | some d => exact Or.inr (Or.inl ⟨d, rfl⟩)
-  · have ho' : Sticky w ∨ DErr w := by simpa [Owes, hpc] using ho
+  · have ho' : Sticky w ∨ DErr w := by simpa [OwesHeld, hpc] using ho
     rcases ho' with (⟨t, h1, _⟩ | hg) | ⟨t, e, h1, _, _⟩
     · simp [h1]
     · simp [hg]
     · right; right; right; right; right; right; left; exact ⟨t, e, h1⟩
+  · -- D21: the hook is out of sync with the repository, the restart request is set
+    simp [hR.1]
 
 /-- End-to-end form over scripts (PARTIAL: `Script` contains `DriverOk`, see above). -/
 theorem C05_no_idle_timer_run_partial (t0 : Time) (acts : List Act) :
@@ -111,7 +129,7 @@ theorem C05_never_late_or_owed (w : World) (hd : Task) :
     w.obs.clock.pending = true ∨ (∃ d, w.obs.clock.armed = some d ∧ d ≤ hd.scheduledAt) ∨
       (w.obs.clock.armed = none ∧ w.obs.clock.pending = false ∧ Owes w) := by
   intro h hst he hn
-  rcases h.hook with hI | ⟨hdd, _, ho⟩
+  rcases h.hook with hI | ⟨hdd, _, ho⟩ | ⟨hl, hR⟩
   · have hnl := hI.neverLate
     unfold Obs.neverLate at hnl
     simp only [hst, he, Option.isNone_none, Bool.and_self, ↓reduceIte, hn, Bool.or_eq_true] at hnl
@@ -122,7 +140,16 @@ theorem C05_never_late_or_owed (w : World) (hd : Task) :
       | some d =>
         simp only [har, decide_eq_true_eq] at ha
         exact Or.inr (Or.inl ⟨d, rfl, ha⟩)
-  · exact Or.inr (Or.inr ⟨hdd.1, hdd.2, ho⟩)
+  · exact Or.inr (Or.inr ⟨hdd.1, hdd.2, Or.inl ho⟩)
+  · -- D21: the hook is out of sync with the repository (`Obs.Loose`): an armed deadline is still not later than
+    -- any scheduled task; a silent timer is covered by the pending restart
+    cases har : w.obs.clock.armed with
+    | some d =>
+      exact Or.inr (Or.inl ⟨d, rfl, (hl.early he d har).1 hd (Repo.getNext_mem hn) (Repo.getNext_scheduled hn)⟩)
+    | none =>
+      cases hp : w.obs.clock.pending with
+      | true => exact Or.inl rfl
+      | false => exact Or.inr (Or.inr ⟨rfl, rfl, Or.inr hR⟩)
 
 /-- The timer is never set later than the next task. -/
 theorem C05_armed_not_late (w : World) (hd : Task) (d : Time) :
@@ -130,19 +157,22 @@ theorem C05_armed_not_late (w : World) (hd : Task) (d : Time) :
     w.obs.repo.getNext = some hd → w.obs.clock.armed = some d → d ≤ hd.scheduledAt := by
   intro h hst he hn ha
   have hclk : w.obs.clock.pending = false := by
-    rcases h.hook with hI | ⟨hdd, _, _⟩
+    rcases h.hook with hI | ⟨hdd, _, _⟩ | ⟨hl, _⟩
     · exact hI.2.clk (by simp [ha])
     · exact hdd.2
+    · exact hl.clk (by simp [ha])
   rcases C05_never_late_or_owed w hd h hst he hn with hp | ⟨d', h1, h2⟩ | ⟨h1, _, _⟩
   · rw [hclk] at hp; cases hp
   · rw [ha] at h1; cases h1; exact h2
   · rw [ha] at h1; cases h1
 
-/-- What `Owes` means between two calls. -/
+/-- What `Owes` means between two calls. WORLDCORE: `Owes` now has the alternative "a restart of the timer is
+pending" (`Restart`, D21), which between two calls is just `getNextErr`. -/
 theorem C05_owes_idle (w : World) (hpc : w.pc = .idle) :
-    Owes w ↔ ((∃ t, w.lastTask = some t ∧ w.obs.Held t) ∨ (w.getNextErr = true ∧ quietRet w.ret = true)) ∨
-      (∃ t e, w.ret = .dispatchErr t e ∧ World.isDefError e = false ∧ w.obs.Held t) := by
-  simp [Owes, hpc, Sticky, LastDebt, DErr]
+    Owes w ↔ (((∃ t, w.lastTask = some t ∧ w.obs.Held t) ∨ (w.getNextErr = true ∧ quietRet w.ret = true)) ∨
+      (∃ t e, w.ret = .dispatchErr t e ∧ World.isDefError e = false ∧ w.obs.Held t)) ∨
+      w.getNextErr = true := by
+  simp [Owes, OwesHeld, Restart, restartPc, hpc, Sticky, LastDebt, DErr]
 
 /-! ### 3. concrete scripts -/
 
@@ -366,7 +396,7 @@ theorem C05_select_not_idle (w : World) (hd : Task) :
   rcases C05_never_late_or_owed w hd h hst he hn with h1 | h1 | ⟨_, _, ho⟩
   · exact Or.inl h1
   · exact Or.inr h1
-  · simp [Owes, hpc] at ho
+  · simp [Owes, OwesHeld, Restart, restartPc, hpc] at ho
 
 /-- OBSERVATION (why `lastErr = none` is a hypothesis above, and why liveness of a blocked `Step`
 rests on its context): `Step` is blocked in `select`; a user `AddTask` whose hook fails in `GetNext`
